@@ -185,6 +185,14 @@ class SourceTable:
             return 'num'
         if isinstance(v, ast.Call) and isinstance(v.func, ast.Name) and v.func.id in ('float', 'int', 'max', 'min', 'abs', 'len'):
             return 'num'
+        if isinstance(v, ast.Call) and isinstance(v.func, ast.Name) and v.func.id in ('list', 'sorted'):
+            return 'list'
+        if isinstance(v, ast.Call) and isinstance(v.func, ast.Name) and v.func.id == 'dict':
+            return 'dict'
+        if isinstance(v, (ast.ListComp,)):
+            return 'list'
+        if isinstance(v, (ast.DictComp,)):
+            return 'dict'
         if isinstance(v, ast.Attribute) and v.attr in ('now', '_now', 'time'):
             return 'num'
         if isinstance(v, (ast.Compare, ast.BoolOp)):
